@@ -77,8 +77,32 @@ func (o *ObjectStorage) IterEncodedObjects(t plumbing.ObjectType) (storer.Encode
 
 	return storer.NewMultiEncodedObjectIter([]storer.EncodedObjectIter{
 		baseIter,
-		temporalIter,
+		&newObjectsIter{EncodedObjectIter: temporalIter, base: o.EncodedObjectStorer},
 	}), nil
+}
+
+// newObjectsIter skips the objects of the temporal storage that the base
+// storage already has: they were listed by the base iterator.
+type newObjectsIter struct {
+	storer.EncodedObjectIter
+	base storer.EncodedObjectStorer
+}
+
+func (it *newObjectsIter) Next() (plumbing.EncodedObject, error) {
+	for {
+		obj, err := it.EncodedObjectIter.Next()
+		if err != nil {
+			return nil, err
+		}
+		if it.base.HasEncodedObject(obj.Hash()) == nil {
+			continue
+		}
+		return obj, nil
+	}
+}
+
+func (it *newObjectsIter) ForEach(cb func(plumbing.EncodedObject) error) error {
+	return storer.ForEachIterator(it, cb)
 }
 
 // Commit it copies the objects of the temporal storage into the base storage.
